@@ -14,11 +14,26 @@ Theorem C01_sq_literal : forall s rest, no_sq s = true ->
 Proof. exact sq_literal_found. Qed.
 Print Assumptions C01_sq_literal.
 
+(* non-vacuity: a string with blanks, delimiters, braces, double quotes, a backslash, a dollar and a comment marker,
+   followed by a text that contains another single-quoted literal *)
+Example C01_sq_literal_nonvacuous :
+  let s := of_string "a b; {x} ""q"" \ $y // z" in
+  let rest := of_string " 'next' ;" in
+  no_sq s = true /\ quoted_at c_sq false (sq s ++ rest) = Some (sq s, rest).
+Proof. intros s rest. assert (H : no_sq s = true) by (vm_compute; reflexivity). exact (conj H (C01_sq_literal s rest H)). Qed.
+
 (* ... likewise for double quotes (and the single-quote alternative, tried first, does not match there) *)
 Theorem C01_dq_literal : forall s rest, no_dq s = true ->
   quoted_at c_sq false (dq s ++ rest) = None /\ quoted_at c_dq false (dq s ++ rest) = Some (dq s, rest).
 Proof. intros s rest H. split; [exact (dq_not_sq_opener s rest) | exact (dq_literal_found s rest H)]. Qed.
 Print Assumptions C01_dq_literal.
+
+Example C01_dq_literal_nonvacuous :
+  let s := of_string "it's a {b}; \ (c) // d" in
+  let rest := of_string " ""next"" 'x';" in
+  no_dq s = true /\
+  quoted_at c_sq false (dq s ++ rest) = None /\ quoted_at c_dq false (dq s ++ rest) = Some (dq s, rest).
+Proof. intros s rest. assert (H : no_dq s = true) by (vm_compute; reflexivity). exact (conj H (C01_dq_literal s rest H)). Qed.
 
 (* what is registered for the literal is the string itself *)
 Theorem C01_unquote : forall s, remove_quotes (sq s) = s /\ remove_quotes (dq s) = s.
@@ -33,6 +48,15 @@ Theorem C01_format_choice : forall s, has_char c_dollar s = false -> (has_char c
   (format_string s = s /\ nonempty s = true /\ forallb (fun c => negb (is_struct_char c || is_quote c)) s = true).
 Proof. exact format_string_choice. Qed.
 Print Assumptions C01_format_choice.
+
+(* non-vacuity: one string for each of the three alternatives (and the empty string, which is single-quoted) *)
+Example C01_format_choice_nonvacuous :
+  let a := of_string "say ""hi"" {now}" in let b := of_string "it's; here" in let c := of_string "plain-1.x" in
+  (has_char c_dollar a = false /\ (has_char c_sq a && has_char c_dq a) = false /\ format_string a = sq a /\ no_sq a = true) /\
+  (has_char c_dollar b = false /\ (has_char c_sq b && has_char c_dq b) = false /\ format_string b = dq b /\ no_dq b = true) /\
+  (has_char c_dollar c = false /\ (has_char c_sq c && has_char c_dq c) = false /\ format_string c = c) /\
+  format_string [] = sq [].
+Proof. vm_compute. repeat split; reflexivity. Qed.
 
 
 (* ---- layer (a): token hierarchy -> dict / list reconstruction inverts the token grammar ---------------- *)
@@ -53,6 +77,31 @@ Theorem C01_tok_roundtrip : forall (lt : scalar -> str) (kt : key -> str) (nv : 
 Proof. intros lt kt nv kvs Hlt Hkt Hkp. exact (TR.tok_roundtrip_main lt kt nv Hlt Hkt Hkp kvs). Qed.
 Print Assumptions C01_tok_roundtrip.
 
+(* non-vacuity: the three hypotheses that quantify over ALL scalars / keys are met by the total renderings
+   ltS / ktS / nvS of E2EProofs (the writer's format_scalar / format_key on simple leaves and keys, the token x
+   elsewhere); the tree has int, float, bool, none and word leaves, an int key, nested dicts, an empty dict, a list
+   of lists and a dict inside a list *)
+Example C01_tok_roundtrip_nonvacuous :
+  let d := [(KS (of_string "alpha"), Leaf (SInt 12));
+            (KI 3, Dict [(KS (of_string "b"), Lst [Leaf (SBool true); Lst [Leaf SNone]; Dict [(KS (of_string "c"), Leaf (SFloat (of_string "1.5")))]]);
+                         (KS (of_string "e"), Dict [])]);
+            (KS (of_string "w"), Leaf (SStr (of_string "word.x-1")))] in
+  (forall v, plain_token (ltS v) = true /\ parse_value (ltS v) = Ok (nvS v)) /\
+  (forall k, plain_token (ktS k) = true) /\
+  (forall k, simple_key k = true -> parse_key (ktS k) = Ok k) /\
+  wf (Dict d) = true /\ simple_tree (Dict d) = true /\
+  toks_doc ltS ktS d = map of_string ["alpha"; "12"; ";"; "3"; "{"; "b"; "("; "true"; "("; "NULL"; ")"; "{"; "c"; "1.5"; ";"; "}"; ")"; ";";
+                                      "e"; "{"; "}"; "}"; "w"; "word.x-1"; ";"; ""]%string /\
+  parse_tokens (toks_doc ltS ktS d) = Ok (kvs_of (map_leaves nvS (Dict d))).
+Proof.
+  intros d.
+  assert (Hw : wf (Dict d) = true) by (vm_compute; reflexivity).
+  assert (Hs : simple_tree (Dict d) = true) by (vm_compute; reflexivity).
+  refine (conj HltS (conj HktpS (conj HkpkS (conj Hw (conj Hs (conj _ _)))))).
+  - vm_compute. reflexivity.
+  - exact (C01_tok_roundtrip ltS ktS nvS d HltS HktpS HkpkS Hw Hs).
+Qed.
+
 (* ---- end to end on quote-free documents: writing a dict with NativeFormatter and reading the text with
    NativeParser returns the dict (leaves re-typed by the classifier): character level, any depth and width;
    the placeholder counter is untouched and all side tables stay empty *)
@@ -64,6 +113,43 @@ Proof. exact roundtrip_quote_free. Qed.
 Print Assumptions C01_roundtrip_quote_free.
 
 (* non-vacuity: ints, floats, bools, none, words, int keys, nested dicts, lists of lists and of dicts *)
+Example C01_roundtrip_quote_free_nonvacuous :
+  let d := [(KS (of_string "alpha"), Leaf (SInt (-12))); (KI 3, Dict [(KS (of_string "b"), Lst [Leaf (SBool true); Lst [Leaf SNone]; Dict [(KS (of_string "c"), Leaf (SFloat (of_string "1.5e-3")))]]); (KS (of_string "e"), Dict [])]);
+            (KS (of_string "w"), Leaf (SStr (of_string "word.x-1"))); (KS (of_string "n"), Leaf (SStr (of_string "0012")))] in
+  wf (Dict d) = true /\ simple_tree (Dict d) = true /\
+  (* the written text ... *)
+  to_string_plain d = of_string
+"alpha                         -12;
+3
+{
+    b
+    (
+        true                  (
+            NULL
+        )
+
+        {
+            c                 1.5e-3;
+        }
+    );
+    e
+    {
+    }
+}
+w                             word.x-1;
+n                             0012;
+" /\
+  (* ... is read back as the dict (the string leaf 0012 re-typed to the int 12: documented normalisation) *)
+  parse_string true (of_string "/some/dir") 41 (to_string_plain d) =
+    Ok (mkParsed (mkSD (kvs_of (map_leaves norm_scalar (Dict d))) [] [] [] []) 41) /\
+  alookup (KS (of_string "n")) (kvs_of (map_leaves norm_scalar (Dict d))) = Some (Leaf (SInt 12)).
+Proof.
+  intros d.
+  assert (Hw : wf (Dict d) = true) by (vm_compute; reflexivity).
+  assert (Hs : simple_tree (Dict d) = true) by (vm_compute; reflexivity).
+  refine (conj Hw (conj Hs (conj _ (conj (C01_roundtrip_quote_free d _ _ Hw Hs) _)))); vm_compute; reflexivity.
+Qed.
+
 Example C01_e2e_example :
   let d := [(KS (of_string "alpha"), Leaf (SInt 12)); (KI 3, Dict [(KS (of_string "b"), Lst [Leaf (SBool true); Lst [Leaf SNone]; Dict [(KS (of_string "c"), Leaf (SFloat (of_string "1.5")))]]); (KS (of_string "e"), Dict [])]);
             (KS (of_string "w"), Leaf (SStr (of_string "word.x-1")))] in
